@@ -79,7 +79,7 @@ Apply(op, a, b) ==
 \* [k |-> "bin", op, l, r]
 RECURSIVE Eval(_)
 Eval(e) ==
-  IF "t" \in DOMAIN e THEN (IF e.t = "fail" THEN Err ELSE e)
+  IF "t" \in DOMAIN e THEN (IF e.t = "fail" THEN Err ELSE IF e.t = "touch" THEN B(TRUE) ELSE e)
   ELSE IF e.k = "not" THEN LET v == Eval(e.e) IN IF v = Skip THEN Skip ELSE IF v # Err /\ v.t = "b" THEN B(~v.v) ELSE Err
   ELSE IF e.op = "and" THEN
        LET a == Eval(e.l) IN
@@ -95,7 +95,7 @@ Eval(e) ==
 \* operands of the kinds the documentation gives it
 RECURSIVE TypeOf(_)
 TypeOf(e) ==
-  IF "t" \in DOMAIN e THEN (IF e.t = "fail" THEN "i" ELSE e.t)
+  IF "t" \in DOMAIN e THEN (IF e.t = "fail" THEN "i" ELSE IF e.t = "touch" THEN "b" ELSE e.t)
   ELSE IF e.k = "not" THEN (IF TypeOf(e.e) = "b" THEN "b" ELSE "bad")
   ELSE LET a == TypeOf(e.l)  b == TypeOf(e.r) IN
        IF a = "bad" \/ b = "bad" THEN "bad"
@@ -108,6 +108,18 @@ TypeOf(e) ==
             (IF {a, b} \subseteq {"i", "r"} THEN "b"
              ELSE IF a = b /\ a \in {"b", "s"} /\ e.op \in {"eq", "ne"} THEN "b" ELSE "bad")
        ELSE "bad"
+
+\* which side-effecting operands ([t |-> "touch", id]: a fact method that records its call and yields true) are really
+\* evaluated: && and || evaluate their right operand only when the left one does not decide; every other operator
+\* evaluates both operands
+RECURSIVE Touched(_)
+Touched(e) ==
+  IF "t" \in DOMAIN e THEN (IF e.t = "touch" THEN {e.id} ELSE {})
+  ELSE IF e.k = "not" THEN Touched(e.e)
+  ELSE IF e.op \in {"and", "or"} THEN
+       LET a == Eval(e.l) IN
+       Touched(e.l) \cup (IF a # Err /\ a # Skip /\ a.t = "b" /\ a.v = (e.op = "and") THEN Touched(e.r) ELSE {})
+  ELSE Touched(e.l) \cup Touched(e.r)
 
 \* ---- grouping of a flat token sequence  <<operand, op, operand, op, ...>>  (op tokens: [k |-> "op", v |-> name]) ----
 PubPrec == [o \in Ops |-> CASE o \in {"mul", "div", "mod", "band"} -> 5 [] o \in {"add", "sub", "bor"} -> 4
